@@ -1,5 +1,6 @@
 import Qentem.Proofs.StrToNumPaths
 import Qentem.Proofs.StrToNumPosUlp
+import Qentem.Proofs.StrToNumNegUlp
 /-! C09 helper lemmas: the whole path of `strToNum` for `d₁ digits (e|E) [+] digits`
 (integer mantissa of at most 19 digits, non-negative exponent). -/
 namespace Qentem.StrToNum
@@ -196,6 +197,123 @@ theorem afterSign_exp_pos (c : List Nat) (e : Nat) (neg : Bool) (off d1 : Nat) (
   rw [hep]
 
 
+/-- `d₁ xs m - ks`: the same with a negative exponent. -/
+theorem afterSign_exp_neg (c : List Nat) (e : Nat) (neg : Bool) (off d1 : Nat) (xs : List Nat) (m : Nat)
+    (ks : List Nat) (he : e < 2 ^ 32) (h1 : isNonZeroDigit d1 = true) (hxs : AllDigits xs) (hlen : xs.length ≤ 18)
+    (hm : m = 101 ∨ m = 69) (hks : AllDigits ks) (hk0 : ks ≠ []) (hk8 : ks.length ≤ 8)
+    (hu : unitsAt c e off (d1 :: xs ++ [m] ++ [45] ++ ks))
+    (hend : endsAt c e (off + 1 + xs.length + 1 + 1 + ks.length) isDigit) :
+    afterSign c e neg off =
+      realResult neg (decVal (d1 :: xs)) (xs.length + 1) (decVal ks) (decide (decVal ks ≠ 0)) (off + 1 + xs.length + 1 + 1 + ks.length) := by
+  -- split the units
+  have hu1 := (unitsAt_append c e (d1 :: xs ++ [m] ++ [45]) ks off).1 hu
+  have hu2 := (unitsAt_append c e (d1 :: xs ++ [m]) [45] off).1 hu1.1
+  have hu3 := (unitsAt_append c e (d1 :: xs) [m] off).1 hu2.1
+  have hd1xs : unitsAt c e off (d1 :: xs) := hu3.1
+  have hP : rd c e (off + (d1 :: xs).length) = some m := hu3.2.1
+  simp only [List.length_cons, List.length_append, List.length_nil] at hP hu1 hu2
+  have hoff : off < e := rd_lt hd1xs.1
+  have hPe := rd_lt hP
+  have hmd : isDigit m = false := by rcases hm with h | h <;> subst h <;> decide
+  have hmde : isDotOrE m = true := by rcases hm with h | h <;> subst h <;> decide
+  have hm46 : m ≠ 46 := by omega
+  have hv64 : decVal (d1 :: xs) < 2 ^ 64 := by
+    rw [decVal_cons]
+    have hx : decVal xs < 10 ^ xs.length := decVal_lt_pow xs hxs
+    simp [isNonZeroDigit] at h1
+    have h18 : 10 ^ xs.length ≤ 10 ^ 18 := Nat.pow_le_pow_right (by decide) hlen
+    have : (d1 - 48) * 10 ^ xs.length ≤ 9 * 10 ^ xs.length := Nat.mul_le_mul_right _ (by omega)
+    have : (9 : Nat) * 10 ^ 18 + 10 ^ 18 < 2 ^ 64 := by decide
+    omega
+  have hfold : xs.foldl pushDigit (d1 - 48) = decVal (d1 :: xs) := by
+    rw [foldl_pushDigit xs (d1 - 48) (by rw [decVal_cons] at hv64; exact hv64), decVal_cons]
+  have hvpos : decVal (d1 :: xs) ≠ 0 := by
+    have := decVal_ge d1 xs h1
+    have : 0 < 10 ^ xs.length := Nat.pow_pos (by decide)
+    omega
+  rw [afterSign]
+  simp only [hoff, if_true, hd1xs.1, h1]
+  rw [windowEnd_eq e off he hoff]
+  rw [iter1_digits c e _ xs (off + 1) (d1 - 48) d1 0 false (isDigit_ne_dot (isNonZeroDigit_isDigit h1)) hxs hd1xs.2
+    (by split <;> omega)
+    (by
+      by_cases hk : (if e - off < 19 then e else off + 19) - (off + 1) = xs.length
+      · exact Or.inl hk
+      · exact Or.inr ⟨m, by rw [show off + 1 + xs.length = off + (xs.length + 1) by omega]; exact hP, hmd, hm46⟩)]
+  simp only [thenScan, hfold]
+  have hP' : rd c e (off + 1 + xs.length) = some m := by
+    rw [show off + 1 + xs.length = off + (xs.length + 1) by omega]; exact hP
+  have ht : twentieth c e (decVal (d1 :: xs)) (off + 1 + xs.length) false =
+      some (decVal (d1 :: xs), off + 1 + xs.length, off + 1 + xs.length, true) := by
+    have hlt : off + 1 + xs.length < e := rd_lt hP'
+    unfold twentieth
+    simp [hlt, hP', hmde]
+  rw [afterScan_of_twentieth_real c e neg off false ⟨decVal (d1 :: xs), off + 1 + xs.length, false, 0, false⟩ _ _ _ ht]
+  rw [finishReal]
+  -- the tail loop: the marker, then the exponent
+  have hPlt : off + 1 + xs.length < e := rd_lt hP'
+  obtain ⟨kk, hkk⟩ : ∃ kk, e - (off + 1 + xs.length) = kk + 1 := ⟨e - (off + 1 + xs.length) - 1, by omega⟩
+  have hks1 : ∃ k1 kt, ks = k1 :: kt := by
+    cases ks with
+    | nil => exact absurd rfl hk0
+    | cons a b => exact ⟨a, b, rfl⟩
+  obtain ⟨k1, kt, hkseq⟩ := hks1
+  have hk1d : isDigit k1 = true := hks k1 (by rw [hkseq]; simp)
+  have hk1ns : ¬ (k1 = 43 ∨ k1 = 45) := by simp [isDigit] at hk1d; omega
+  have hpe : parseExponent c e (off + 1 + xs.length + 1) =
+      some (true, decVal ks, true, off + 1 + xs.length + 1 + 1 + ks.length) := by
+    unfold parseExponent
+    have hpr : rd c e (off + 1 + xs.length + 1) = some 45 := by
+      rw [show off + 1 + xs.length + 1 = off + (xs.length + 1 + 1) by omega]; exact hu2.2.1
+    have hlt := rd_lt hpr
+    have hk1r : rd c e (off + 1 + xs.length + 1 + 1) = some k1 := by
+      have := hu1.2; rw [hkseq] at this
+      rw [show off + 1 + xs.length + 1 + 1 = off + (xs.length + 1 + 1 + 1) by omega]; exact this.1
+    have hlt1 := rd_lt hk1r
+    simp only [hlt, if_true, hpr, or_true, hlt1, hk1r, hk1ns, if_false]
+    rw [expDigits_all c e ks (off + 1 + xs.length + 1 + 1) hks
+      (by rw [show off + 1 + xs.length + 1 + 1 = off + (xs.length + 1 + 1 + 1) by omega]; exact hu1.2) hk8 hend]
+    have : (off + 1 + xs.length + 1 + 1 + ks.length != off + 1 + xs.length + 1 + 1) = true := by
+      have : 0 < ks.length := by rw [hkseq]; simp
+      simp; omega
+    simp [this]
+  have htail : tailLoop c e (decVal (d1 :: xs)) (e - (off + 1 + xs.length)) (off + 1 + xs.length) false 0 =
+      some (.inr ⟨off + 1 + xs.length + 1 + 1 + ks.length, false, 0, off + 1 + xs.length, decVal ks, true⟩) := by
+    rw [hkk, tailLoop, hP']
+    simp only [hmd, Bool.false_eq_true, if_false, hm46, hm, if_true, hpe]
+  simp only [htail]
+  -- exponent bookkeeping
+  have hkslen : 0 < ks.length := by rw [hkseq]; simp
+  have hendle : off + 1 + xs.length + 1 + 1 + ks.length ≤ e := by
+    rcases hend with h | ⟨x, hx, _⟩
+    · omega
+    · exact Nat.le_of_lt (rd_lt hx)
+  have hadj : adjustExponent false (off + 1 + xs.length) 0 0
+      ⟨off + 1 + xs.length + 1 + 1 + ks.length, false, 0, off + 1 + xs.length, decVal ks, true⟩ =
+      (decVal ks, decide (decVal ks ≠ 0)) := by
+    have hk32 : decVal ks < 2 ^ 32 := by
+      have hx : decVal ks < 10 ^ ks.length := decVal_lt_pow ks hks
+      have : 10 ^ ks.length ≤ 10 ^ 8 := Nat.pow_le_pow_right (by decide) hk8
+      omega
+    unfold adjustExponent
+    have hne : off + 1 + xs.length ≠ off + 1 + xs.length + 1 + 1 + ks.length := by omega
+    have hne0 : off + 1 + xs.length ≠ 0 := by omega
+    simp only [Bool.not_false, true_and, ne_eq, hne, not_false_eq_true, if_true, hne0, if_false, Bool.not_true,
+      Bool.false_eq_true]
+    rw [sub32_eq _ _ (Nat.le_refl _) (by omega), Nat.sub_self]
+    by_cases hk0' : decVal ks = 0
+    · simp [hk0', sub32, add32]
+    · have hle : ¬ (decVal ks ≤ 0) := by omega
+      simp only [hle, if_false, if_true, hk0', not_false_eq_true, decide_true]
+      rw [sub32_eq _ 0 (Nat.zero_le _) hk32, Nat.sub_zero, add32_eq _ _ (by omega), Nat.add_zero]
+  simp only [Bool.not_false, Bool.true_and, Bool.false_eq_true, if_false, hadj]
+  have hep : sub32 (sub32 (off + 1 + xs.length) off) (b2n false) = xs.length + 1 := by
+    simp only [b2n, Bool.false_eq_true, if_false]
+    rw [sub32_eq (off + 1 + xs.length) off (by omega) (by omega), sub32_eq _ 0 (Nat.zero_le _) (by omega)]; omega
+  rw [hep]
+
+
+
 theorem maxFinite_lt_pow309 : (2 ^ 53 - 1) * 2 ^ 971 < 10 ^ 309 := by decide +kernel
 
 theorem or_sign_mod (v : Nat) (neg : Bool) (hv : v < 2 ^ 63) :
@@ -215,7 +333,7 @@ digits: out-of-range (`k + n > 309`, and then the value really exceeds every fin
 Real within one ulp whose magnitude does not fall below the largest finite double when the value
 exceeds it. -/
 theorem realResult_pos (neg : Bool) (v n k off : Nat) (hv0 : 0 < v) (hv : v < 2 ^ 64) (hvn : 10 ^ (n - 1) ≤ v)
-    (hn : 1 ≤ n) (hk : k < 10 ^ 8) (hn19 : n ≤ 19) :
+    (hn : 1 ≤ n) (hk : k < 2 ^ 31) (hn19 : n ≤ 19) :
     (k + n > 309 ∧ realResult neg v n k false off = some ⟨.notANumber, v, off⟩ ∧ (2 ^ 53 - 1) * 2 ^ 971 < v * 10 ^ k) ∨
     (k + n ≤ 309 ∧ ∃ p, realResult neg v n k false off = some ⟨.real, p ||| (if neg then 0x8000000000000000 else 0), off⟩ ∧
         p < 2 ^ 63 ∧ ulpDist p (nearestMag (v * 10 ^ k) 1) ≤ 1 ∧
@@ -239,5 +357,36 @@ theorem realResult_pos (neg : Bool) (v n k off : Nat) (hv0 : 0 < v) (hv : v < 2 
     intro hov
     obtain ⟨p', hp', hcases⟩ := powerOfPositiveTen_overflow v k hv0 hv hk20 hov
     rw [hp] at hp'; cases hp'; exact hcases
+
+
+theorem minSub_pow325 : 2 ^ 1074 ≤ 10 ^ 325 := by decide +kernel
+
+/-- what `realResult` returns on the negative-exponent side for a mantissa `257 ≤ v < 10^n`, `n ≤ 19`:
+rejected only when the value is below the smallest subnormal, otherwise a Real within one ulp -/
+theorem realResult_neg (neg : Bool) (v n k off : Nat) (hv0 : 0 < v) (hvk : k ≤ n + 324 → 2 ^ (k / 27) ≤ 16 * v)
+    (hv : v < 2 ^ 64) (hvn : v < 10 ^ n) (hn19 : n ≤ 19) (hk : k < 2 ^ 31) :
+    (k > n + 324 ∧ realResult neg v n k true off = some ⟨.notANumber, v, off⟩ ∧ v * 2 ^ 1074 < 10 ^ k) ∨
+    (k ≤ n + 324 ∧ ∃ p, realResult neg v n k true off = some ⟨.real, p ||| (if neg then 0x8000000000000000 else 0), off⟩ ∧
+        p < 2 ^ 63 ∧ ulpDist p (nearestMag v (10 ^ k)) ≤ 1) := by
+  have hv0' : v ≠ 0 := by omega
+  unfold realResult
+  simp only [ne_eq, hv0', not_false_eq_true, if_true, true_and, Bool.not_true, Bool.false_eq_true, false_and, or_false]
+  by_cases hr : k > n + 324
+  · left
+    have hsub : sub32 k n = k - n := sub32_eq _ _ (by omega) (by omega)
+    have hc : k > n ∧ sub32 k n > 324 := ⟨by omega, by rw [hsub]; omega⟩
+    refine ⟨hr, by simp [hc], ?_⟩
+    have h1 : 10 ^ (n + 325) ≤ 10 ^ k := Nat.pow_le_pow_right (by decide) (by omega)
+    calc v * 2 ^ 1074 < 10 ^ n * 2 ^ 1074 := Nat.mul_lt_mul_of_pos_right hvn (by positivity)
+      _ ≤ 10 ^ n * 10 ^ 325 := Nat.mul_le_mul_left _ minSub_pow325
+      _ = 10 ^ (n + 325) := (Nat.pow_add _ _ _).symm
+      _ ≤ 10 ^ k := h1
+  · right
+    have hc : ¬ (k > n ∧ sub32 k n > 324) := by
+      intro ⟨h1, h2⟩
+      rw [sub32_eq _ _ (by omega) (by omega)] at h2
+      omega
+    obtain ⟨p, hp, hclose⟩ := powerOfNegativeTen_close v k hv0 (hvk (by omega)) hv (by omega)
+    exact ⟨by omega, p, by simp [hc, hp], powerOfNegativeTen_lt v k p hp, hclose⟩
 
 end Qentem.StrToNum
